@@ -56,6 +56,14 @@ func kernels() []kernel {
 			vars: map[string]string{"i.SkipInterval": "skipInterval"}, sig: "(skipInterval : Int) : Bool"},
 		{name: "syncDeleteMisses", file: "sync_map.go", recv: "syncMap", fn: "Delete", kind: "ifcond", must: []string{"loaded"}, vars: map[string]string{"loaded": "loaded"}, sig: "(loaded : Bool) : Bool"},
 		{name: "syncDeleteAllCounts", file: "sync_map.go", recv: "syncMap", fn: "DeleteAll", kind: "ifcond", must: []string{"loaded"}, vars: map[string]string{"loaded": "loaded"}, sig: "(loaded : Bool) : Bool"},
+		// structural facts of the skeleton the machine is written against (C09)
+		{name: "keyLocksByKey", file: "failover.go", recv: "Failover", fn: "Get", kind: "fact", unit: "keylocks-by-key"},
+		{name: "keyLocksByKeyOf", file: "failover_go1.18.go", recv: "FailoverOf", fn: "Get", kind: "fact", unit: "keylocks-by-key"},
+		{name: "bgKeyCopied", file: "failover.go", recv: "Failover", fn: "Get", kind: "fact", unit: "bg-key-copied"},
+		{name: "bgKeyCopiedOf", file: "failover_go1.18.go", recv: "FailoverOf", fn: "Get", kind: "fact", unit: "bg-key-copied"},
+		{name: "storedKeyCopied", file: "sharded_map.go", recv: "shardedMap", fn: "Write", kind: "fact", unit: "stored-key-copied"},
+		{name: "storedKeyCopiedOf", file: "sharded_map_go1.18.go", recv: "shardedMapOf", fn: "Write", kind: "fact", unit: "stored-key-copied"},
+		{name: "storedKeyCopiedSync", file: "sync_map.go", recv: "syncMap", fn: "Write", kind: "fact", unit: "stored-key-copied"},
 		// constants
 		{name: "shards", file: "sharded_map.go", kind: "constdecl", lhs: "shards", sig: ": Int", unit: "int"},
 		{name: "defaultSkipInterval", file: "invalidator.go", recv: "Invalidator", fn: "Invalidate", kind: "defaultval", lhs: "i.SkipInterval", sig: ": Int", unit: "dur"},
